@@ -54,3 +54,28 @@ Proof. unfold spec_lrc. rewrite !bsum_app. f_equal. f_equal. f_equal. lia. Qed.
 (* the check characterises frames: sum of all bytes including the LRC is 0 mod 256 *)
 Lemma spec_lrc_sum bs : (bsum bs + spec_lrc bs) mod 256 = 0.
 Proof. unfold spec_lrc. pose proof (bsum_nonneg bs). lia. Qed.
+
+(* ---- detection power: any change of a single byte (hence of a single hex character) of
+   unit+PDU+LRC breaks the LRC equation ---- *)
+Definition lrc_ok (m : bytes) : Prop := (bsum m) mod 256 = 0.
+
+Lemma lrc_ok_iff body ck : (ck < 256)%N -> (lrc_ok (body ++ [ck]) <-> Z.of_N ck = spec_lrc body).
+Proof.
+  intros Hck. unfold lrc_ok, spec_lrc. rewrite bsum_app. cbn [bsum fold_right].
+  pose proof (bsum_nonneg body) as Hnn. split; intros H; lia.
+Qed.
+
+Theorem lrc_single_byte pre post (x x' : N) :
+  (x < 256)%N -> (x' < 256)%N -> x <> x' ->
+  lrc_ok (pre ++ x :: post) -> ~ lrc_ok (pre ++ x' :: post).
+Proof.
+  unfold lrc_ok. intros Hx Hx' Hne H1 H2.
+  rewrite !bsum_app in *. cbn [bsum fold_right] in *. fold (bsum post) in *. lia.
+Qed.
+
+(* a hex character determines its nibble: two different hex characters with different values
+   give different bytes *)
+Lemma hex_pair_inj x y x' y' :
+  0 <= x < 16 -> 0 <= y < 16 -> 0 <= x' < 16 -> 0 <= y' < 16 ->
+  16 * x + y = 16 * x' + y' -> x = x' /\ y = y'.
+Proof. lia. Qed.
